@@ -37,6 +37,10 @@ var mutatorArgs = map[string][]int{
 	"slices.SortFunc": {0}, "slices.SortStableFunc": {0}, "slices.Sort": {0}, "slices.Reverse": {0},
 	"sort.Sort": {0}, "sort.Stable": {0}, "sort.Slice": {0}, "sort.SliceStable": {0}, "sort.Strings": {0}, "sort.Ints": {0},
 	"slices.Insert": {0}, "slices.Delete": {0}, "slices.Compact": {0}, "slices.CompactFunc": {0}, "slices.Grow": {0}, "slices.Clip": {},
+	"slices.DeleteFunc": {0}, "slices.Replace": {0}, "slices.AppendSeq": {0}, "slices.SortStable": {0}, "sort.Float64s": {0},
+	"maps.Insert": {0}, "maps.Clear": {0}, "fmt.Sscan": {1}, "fmt.Sscanf": {2}, "fmt.Sscanln": {1}, "fmt.Fscan": {1}, "fmt.Fscanf": {2},
+	"strconv.AppendInt": {0}, "strconv.AppendQuote": {0}, "strconv.AppendFloat": {0}, "strconv.AppendBool": {0}, "strconv.AppendUint": {0},
+	"unicode/utf8.AppendRune": {0}, "unicode/utf8.EncodeRune": {0}, "unicode/utf16.AppendRune": {0}, "fmt.Append": {0}, "fmt.Appendf": {0}, "fmt.Appendln": {0},
 	"encoding/json.Unmarshal": {1}, "(*encoding/json.Decoder).Decode": {1},
 	"maps.Copy": {0}, "maps.DeleteFunc": {0}, "copy": {0}, "clear": {0}, "delete": {0},
 }
@@ -128,7 +132,7 @@ func ruleEWriteOwnership(p *Program, r *Reporter) {
 					}
 					// unknown external callee receiving reference-typed data
 					if callee := calleeOf(c); callee != nil && !p.IsRepo(callee) && bn == "" {
-						if pureCallees[full] {
+						if pureCallees[full] || stdlibReadOnly(callee) {
 							continue
 						}
 						for i, arg := range c.Args {
@@ -715,3 +719,21 @@ func ruleEMapRange(p *Program, r *Reporter) {
 }
 
 func isMonotoneAppendOnly(phi *ssa.Phi, body map[*ssa.BasicBlock]bool) bool { return false }
+
+// stdlibReadOnly: functions of these standard-library packages never write through reference-typed arguments, except the
+// ones listed in mutatorArgs (which are handled before this test). A new mutating API must be added to that table.
+var readOnlyPkgs = map[string]bool{
+	"strings": true, "unicode": true, "unicode/utf8": true, "unicode/utf16": true, "strconv": true, "math": true, "errors": true,
+	"slices": true, "maps": true, "sort": true, "fmt": true, "iter": true, "cmp": true, "math/bits": true,
+}
+
+func stdlibReadOnly(callee *ssa.Function) bool {
+	if callee.Pkg == nil {
+		// methods of instantiated generic types etc.
+		if o := callee.Origin(); o != nil && o.Pkg != nil {
+			return readOnlyPkgs[o.Pkg.Pkg.Path()]
+		}
+		return false
+	}
+	return readOnlyPkgs[callee.Pkg.Pkg.Path()]
+}
